@@ -194,7 +194,20 @@ func FileSeek(f *os.File, offset int64, whence int) (int64, error) { return 0, n
 
 func FileClose(f *os.File) error { return nil }
 
-func FileReaddirnames(f *os.File, n int) ([]string, error) { return Cur.Names(), nil }
+// FileReaddirnames lists the directory in an order unrelated to the names
+// (here: reverse name order, so that code relying on the listing order is
+// exposed); n > 0 limits the listing to the first n entries as readdir does.
+func FileReaddirnames(f *os.File, n int) ([]string, error) {
+	names := Cur.Names()
+	out := make([]string, 0, len(names))
+	for i := len(names) - 1; i >= 0; i-- {
+		out = append(out, names[i])
+	}
+	if n > 0 && len(out) > n {
+		out = out[:n]
+	}
+	return out, nil
+}
 
 func OsMkdirAll(path string, perm os.FileMode) error { return nil }
 
